@@ -173,8 +173,17 @@ def catalogue(type_cases, limit=None, salt="c"):
         items.append({"name": tc["m"], "tc": tc, "sa": sa, "sb": sb,
                       "backend": "+".join(sorted({tc["a"][0], tc["b"][0]} - {"none"}))})
     if limit and len(items) > limit:
-        step = len(items) / float(limit)
-        items = [items[int(i * step)] for i in range(limit)]
+        # every (method, backend of the first operand) at least once - each backend has its own operator / ufunc table -
+        # then an even sample of the rest
+        must, rest = {}, []
+        for it in items:
+            key = (it["name"], it["tc"]["a"][0])
+            if key not in must:
+                must[key] = it
+            else:
+                rest.append(it)
+        step = len(rest) / float(limit)
+        items = list(must.values()) + [rest[int(i * step)] for i in range(limit)]
     # every method once more with a poisoned object operand (first, and for binary methods also second):
     # the exception is raised inside the compute layer, the process state must still be restored
     seen, poisoned = set(), []
@@ -333,6 +342,7 @@ def thread_run(type_cases, limit, nthreads=16, repeats=1):
         old = sys.getswitchinterval()
         sys.setswitchinterval(1e-6)
         all_events, mismatches = list(seq_events), []
+        state_before = fingerprint()
         try:
             for rep in range(repeats):
                 barrier = threading.Barrier(nthreads)
@@ -347,6 +357,13 @@ def thread_run(type_cases, limit, nthreads=16, repeats=1):
                     t.start()
                 for t in ths:
                     t.join()
+                # while threads overlap a change cannot be attributed to one call, but once they have all finished the
+                # process-wide state must be what it was (save / restore pairs that interleave across threads leak)
+                state_after = fingerprint()
+                if state_after != state_before:
+                    mismatches.append({"thread": -1, "call": "(all)", "backend": "-", "what": "process-wide state after the threads finished differs",
+                                       "got": json.dumps(state_after)[:300], "want": json.dumps(state_before)[:300]})
+                    state_before = state_after
                 for k, (ev, res) in enumerate(outs):
                     all_events += ev
                     if len(res) != len(seq_results):
@@ -359,6 +376,56 @@ def thread_run(type_cases, limit, nthreads=16, repeats=1):
         finally:
             sys.setswitchinterval(old)
     return all_events, mismatches, len(items)
+
+
+def thread_hammer(type_cases, nthreads=8, reps=4, with_poisoned=True):
+    """Every (method, backend) of the catalogue called by all threads *at the same moment* (a barrier per item, `reps`
+    calls each): save / restore pairs of process-wide state that are not thread-safe leak exactly when two calls of
+    the same kind overlap.  Between two items every thread is parked at the barrier, so the process-wide state can be
+    read race-free and a change is attributed to the item.  Returns (mismatches, number of items, calls)."""
+    import sys
+
+    items = [it for it in catalogue(type_cases, 1, salt="hammer") if with_poisoned or not it["name"].startswith("poisoned:")]
+    with warnings.catch_warnings():
+        warnings.simplefilter("ignore")
+        _, seq_results = run_session(items, tid=200, thread="sequential", with_results=True)
+        mismatches = []
+        barrier = threading.Barrier(nthreads)
+        state = [fingerprint()]
+        old = sys.getswitchinterval()
+        sys.setswitchinterval(1e-6)
+
+        def one(item):
+            try:
+                A, B, thunk = perform(item)
+                return result_digest(thunk())
+            except Exception as ex:
+                return "raised:" + type(ex).__name__
+
+        def work(k):
+            for j, item in enumerate(items):
+                barrier.wait()
+                for r in range(reps):
+                    d = one(item)
+                    if d != seq_results[j] and len(mismatches) < 50:
+                        mismatches.append({"thread": k, "call": item["name"], "backend": item["backend"], "got": d[:200], "want": seq_results[j][:200]})
+                if barrier.wait() == 0:
+                    now = fingerprint()
+                    if now != state[0]:
+                        mismatches.append({"thread": -1, "call": item["name"], "backend": item["backend"],
+                                           "what": "process-wide state differs after all threads returned from this call",
+                                           "got": json.dumps(now)[:300], "want": json.dumps(state[0])[:300]})
+                        state[0] = now
+
+        try:
+            ths = [threading.Thread(target=work, args=(k,)) for k in range(nthreads)]
+            for t in ths:
+                t.start()
+            for t in ths:
+                t.join()
+        finally:
+            sys.setswitchinterval(old)
+    return mismatches, len(items), len(items) * nthreads * reps
 
 
 def validate(events):
